@@ -260,7 +260,7 @@ func TestC09_Tables(t *testing.T) {
 			}
 		}
 	}
-	reps := ev.N(20, 2000)
+	reps := ev.N(80, 8000)
 	seed := int(ev.Seed() % 1000003)
 	for rep := 0; rep < reps; rep++ {
 		for mi, b := range usable() {
